@@ -327,6 +327,13 @@ func checkCodec(c *core.Check, which string) {
 		}
 		schemas = keep
 	}
+	// seeded random compositions of all constructs (randschema.go)
+	nRand := 150
+	if thorough {
+		nRand = 1200
+	}
+	schemas = append(schemas, randSchemas(rand.New(rand.NewSource(c.Seed+4242)), nRand)...)
+	c.Cov["random_schema_compositions"] = nRand
 	// pre-flight each schema on its own
 	var pre []core.GenJob
 	for i, s := range schemas {
@@ -651,6 +658,11 @@ func hasDiscriminator(s map[string]any) bool {
 	}
 	for _, k := range []string{"items"} {
 		if m, ok := s[k].(map[string]any); ok && hasDiscriminator(m) {
+			return true
+		}
+	}
+	if ad, ok := s["addl"].(map[string]any); ok {
+		if m, ok := ad["s"].(map[string]any); ok && ad["k"] == "schema" && hasDiscriminator(m) {
 			return true
 		}
 	}
